@@ -197,6 +197,7 @@ def run_cases(rng, tier, ifaces):
     return out
 
 
+SET_STR_ID = 44        # id of `SET:STR`
 SET_BYTES_ID = 46      # id of `SET:BYTES` in the echo interface (checked in big_block_cases)
 
 
@@ -211,6 +212,39 @@ def big_block_cases(tier):
     return out
 
 
+def twice_oracle(line, case):
+    if is_crash(line):
+        return 'crash'
+    f = parse_fields(line)
+    if log_entries(f) != [] or parse_list(f.get('errs', '[]')) != case.meta['errs'] or parse_list(f.get('q', '[]')) != case.meta['errs']:
+        return f"every misfitting parameter list reports its own error (handler and queue see {case.meta['errs']}), no handler runs"
+    return None
+
+
+def twice_cases():
+    out = []
+    for a, b, e in [(b'SET:U8 256', b'SET:U8 300', '-120'), (b'SET:U16 "1"', b'SET:STR 5', '-104'), (b'BOOL 2', b'BOOL 7', '-224'),
+                    (b'TWO 1', b'BOOL', '-115'), (b'SET:I8 -129', b'SET:I8 -129', '-120')]:
+        for text in (a + b';:' + b + b'\n', a + b'\n' + b + b'\n', a + b'\n' + a + b'\n' + b + b'\n'):
+            n = text.count(b'\n') + text.count(b';')
+            out.append(Case(f'RUN echo std {hx(text)}', twice_oracle, {'errs': [e] * n, 'kind': 'RUN-twice'}))
+            out.append(Case(f'PROC echo 64 {hx(text)} -', twice_oracle, {'errs': [e] * n, 'kind': 'RUN-twice'}))
+    return out
+
+
+def lf_payload_cases(rng):
+    """strings and blocks with several line feeds, byte for byte, through process (behind a complete message, in one read and byte-wise)"""
+    out = []
+    for pay in (b'a\nb', b'\n', b'\n\n', b'a\n\nb\nc', b'x\nSET:U8 7\ny', b'\n' * 5):
+        for text, entry in ((b'SET:STR "' + pay + b'"\n', f'{SET_STR_ID}(str:{hx(pay)})'),
+                            (b'SET:BYTES #' + str(len(str(len(pay)))).encode() + str(len(pay)).encode() + pay + b'\n', f'{SET_BYTES_ID}(bytes:{hx(pay)})')):
+            for pre, plog in ((b'', []), (b'X\n', ['2()']), (b'X\nX\n', ['2()', '2()'])):
+                stream = pre + text
+                for sched in ('-', ','.join(['1'] * len(stream)), ','.join(str(rng.randint(1, 9)) for _ in range(len(stream)))):
+                    out.append(Case(f'PROC echo 64 {hx(stream)} {sched}', run_oracle, {'log': plog + [entry], 'errs': [], 'kind': 'PROC-lfpayload'}))
+    return out
+
+
 def corpus_cases(ifaces):
     # D10: nine length digits
     return [Case(f'RUN echo std {hx(b"BLK #9000000001a" + bytes([10]))}', run_oracle, {'log': ['4(bytes:61)'], 'errs': [], 'kind': 'corpus-D10'}),
@@ -218,4 +252,4 @@ def corpus_cases(ifaces):
 
 
 def cases(tier, rng, ifaces):
-    return conv_cases(rng, tier) + run_cases(rng, tier, ifaces) + big_block_cases(tier)
+    return conv_cases(rng, tier) + run_cases(rng, tier, ifaces) + big_block_cases(tier) + twice_cases() + lf_payload_cases(rng)
